@@ -170,8 +170,6 @@ def rule_duplicates(ctx):
 
 
 def run(ctx):
-    from ..rules import generic as _G11
-    _G11.rule_F11(ctx, ['partitura.score'], 'C11')
     T.duration_tables(ctx)
     rule_reads(ctx)
     rule_provenance(ctx)
